@@ -56,11 +56,12 @@ class ListVal:
 
 
 class DictVal:
-    __slots__ = ('items', 'oid')
+    __slots__ = ('items', 'oid', 'cls')
 
-    def __init__(self, items, oid):
+    def __init__(self, items, oid, cls=None):
         self.items = list(items)   # (k, v) pairs or ('dstar', term)
         self.oid = oid
+        self.cls = cls             # qualified name of a package class deriving from dict, when the dict is an instance of one
 
     def __repr__(self):
         return 'DictVal#%d%r' % (self.oid, self.items)
@@ -477,6 +478,13 @@ class SymExec:
             r = self.facts.resolve_expr(module, target)
             if r[0] == 'fn':
                 out.append(d)
+            elif isinstance(target, ast.Attribute) and isinstance(target.value, ast.Name):
+                # @REGISTRY.method(...) where REGISTRY is a module-level instance of a package class
+                vals = module.assigns.get(target.value.id)
+                if vals and len(vals) == 1 and isinstance(vals[0], ast.Call):
+                    rc = self.facts.resolve_expr(module, vals[0].func)
+                    if rc[0] == 'cls' and self.facts.find_method(rc[1], target.attr):
+                        out.append(d)
         return out
 
     def decorated_value(self, module, node, qual, fr_mod=None):
@@ -1258,12 +1266,59 @@ class SymExec:
             if pat.name is not None:
                 self.store_name(pat.name, subj, fr, st)
             return True
-        if isinstance(pat, ast.MatchSequence) and isinstance(subj, tuple) and subj and subj[0] == 'tuple' \
-                and not any(isinstance(p_, ast.MatchStar) for p_ in pat.patterns) \
-                and not any(isinstance(x, tuple) and x and x[0] == 'star' for x in subj[1:]):
-            if len(pat.patterns) != len(subj) - 1:
-                return False
-            return all(self._match_pattern(p_, x, fr, st) for p_, x in zip(pat.patterns, subj[1:]))
+        if isinstance(pat, ast.MatchSequence):
+            spine = None
+            if isinstance(subj, tuple) and subj[:1] == ('tuple',) and not any(isinstance(x, tuple) and x[:1] == ('star',) for x in subj[1:]):
+                spine = list(subj[1:])
+            elif isinstance(subj, ListVal) and subj.concrete():
+                spine = list(subj.elts)
+            elif is_const(freeze(subj)) and not isinstance(freeze(subj)[1], (tuple, list)):
+                return False                # str / number / None: not a sequence for pattern matching
+            if spine is not None:
+                stars = [i for i, p_ in enumerate(pat.patterns) if isinstance(p_, ast.MatchStar)]
+                if not stars:
+                    if len(pat.patterns) != len(spine):
+                        return False
+                    return all(self._match_pattern(p_, x, fr, st) for p_, x in zip(pat.patterns, spine))
+                if len(stars) == 1:
+                    k = stars[0]
+                    after = len(pat.patterns) - 1 - k
+                    if len(spine) < len(pat.patterns) - 1:
+                        return False
+                    if not all(self._match_pattern(p_, x, fr, st) for p_, x in zip(pat.patterns[:k], spine[:k])):
+                        return False
+                    if after and not all(self._match_pattern(p_, x, fr, st) for p_, x in zip(pat.patterns[k + 1:], spine[len(spine) - after:])):
+                        return False
+                    if pat.patterns[k].name is not None:
+                        self.store_name(pat.patterns[k].name, ListVal(spine[k:len(spine) - after], self.fresh()), fr, st)
+                    return True
+            if spine is None and len([p_ for p_ in pat.patterns if isinstance(p_, ast.MatchStar)]) <= 1:
+                # a subject whose shape is not known: the pattern may match or not; when it does, the captured names hold
+                # the corresponding parts
+                if self.choose(2, 'match-seq') == 1:
+                    return False
+                def bind(q_, sv):
+                    # the whole pattern is taken to match: captures get their parts, literal sub-patterns decide nothing more
+                    if isinstance(q_, ast.MatchAs):
+                        if q_.pattern is not None:
+                            bind(q_.pattern, sv)
+                        if q_.name is not None:
+                            self.store_name(q_.name, sv, fr, st)
+                    elif isinstance(q_, ast.MatchSequence):
+                        for j_, r_ in enumerate(q_.patterns):
+                            if isinstance(r_, ast.MatchStar):
+                                if r_.name is not None:
+                                    self.store_name(r_.name, ('unpack*', freeze(sv), j_), fr, st)
+                            else:
+                                bind(r_, ('unpack', freeze(sv), j_))
+                    elif isinstance(q_, ast.MatchOr):
+                        if any(isinstance(x, (ast.MatchAs, ast.MatchSequence)) and not (isinstance(x, ast.MatchAs) and x.name is None and x.pattern is None)
+                               for x in q_.patterns):
+                            raise Unrecognised('or-pattern with captures on a subject of unknown shape in %s' % fr.qual)
+                    elif not isinstance(q_, (ast.MatchValue, ast.MatchSingleton)):
+                        raise Unrecognised('match pattern %s on a subject of unknown shape in %s' % (type(q_).__name__, fr.qual))
+                bind(pat, subj)
+                return True
         raise Unrecognised('match pattern %s in %s' % (type(pat).__name__, fr.qual))
 
     # ----------------------------------------------------------- assignments
@@ -1345,6 +1400,9 @@ class SymExec:
             return ('const', q)
         if k == 'modvar':
             t = self._const_tuple(q)
+            if t is not None:
+                return t
+            t = self._import_time_const(q)
             if t is not None:
                 return t
             if self.module_env:
@@ -1438,6 +1496,41 @@ class SymExec:
             if isinstance(st, ast.AnnAssign) and isinstance(st.target, ast.Name):
                 out.append((st.target.id, st.value))
         return out
+
+    def _import_time_const(self, q: str):
+        """A module-level name assigned exactly once, never declared global, whose value - computed while the module is
+        imported - is an immutable object known completely (str / number / tuple / frozenset of such): that value."""
+        cache = self.facts.__dict__.setdefault('_import_time_consts', {})
+        if q in cache:
+            return cache[q]
+        cache[q] = None
+        mod, _, var = q.rpartition('.')
+        m = self.facts.modules.get(mod)
+        if m is None or var not in m.assigns or len(m.assigns[var]) != 1 or m.assigns[var][0] is None \
+                or self.fi.qual.endswith('.<module>') or mod in self.module_env:
+            return None
+        node0 = m.assigns[var][0]
+        if isinstance(node0, (ast.Constant, ast.Tuple, ast.Dict, ast.List, ast.Set, ast.Lambda, ast.Name, ast.Attribute)):
+            return None                     # displays and aliases are handled elsewhere
+        if any(isinstance(n, ast.Global) and var in n.names for n in ast.walk(m.tree)):
+            return None
+        v = exec_module_body(self.facts, m).get(var)
+        fv = freeze(v) if not isinstance(v, (ListVal, DictVal, Closure)) else None
+
+        def immutable(t):
+            if is_const(t):
+                return isinstance(t[1], (str, int, float, bool, type(None), bytes))
+            if isinstance(t, tuple) and t[:1] == ('tuple',):
+                return all(immutable(x) for x in t[1:])
+            return False
+        res = None
+        if fv is not None and immutable(fv):
+            res = fv
+        elif isinstance(fv, tuple) and fv[:1] == ('set',) and all(immutable(x) for x in fv[1:]) and isinstance(node0, ast.Call) \
+                and isinstance(node0.func, ast.Name) and node0.func.id == 'frozenset':
+            res = fv
+        cache[q] = res
+        return res
 
     def _const_tuple(self, q: str):
         """A module-level name bound once to a tuple display of constants (nested tuples allowed): the tuple itself.
@@ -1652,10 +1745,19 @@ class SymExec:
             except Exception:
                 pass
         # dispatch table kept at module level:  _OPS = {'+=': operator.iadd, ...};  _OPS[op]
-        if isinstance(b, tuple) and b[:2] == ('ref', 'modvar') and is_const(i):
-            hit = self.modvar_table_entry(b[2], i[1])
+        ikey_ = None
+        if is_const(i):
+            ikey_ = (i[1],)
+        elif isinstance(i, tuple) and i[:1] == ('tuple',) and all(is_const(x) for x in i[1:]):
+            ikey_ = (tuple(x[1] for x in i[1:]),)
+        if isinstance(b, tuple) and b[:2] == ('ref', 'modvar') and ikey_ is not None:
+            hit = self.modvar_table_entry(b[2], ikey_[0])
             if hit is not None:
-                return hit[1]
+                if hit[0]:
+                    return hit[1]
+                exc = ('call', self.fresh(), ('ref', 'builtin', 'KeyError'), (), ())
+                self.emit('raise', node, exc=exc, implicit=True)
+                raise _Raise(exc, node)
         self.emit('load_sub', node, obj=b, index=i, handlers=self._handlers())
         return ('sub', freeze(b), freeze(i))
 
@@ -1682,6 +1784,9 @@ class SymExec:
                             out.extend((mm, kk, vv) for mm, kk, vv in sub)
                             continue
                 return None
+            if isinstance(k, ast.Tuple) and all(isinstance(x, ast.Constant) for x in k.elts):
+                out.append((m, tuple(x.value for x in k.elts), v))        # a tuple of constants as key
+                continue
             if not isinstance(k, ast.Constant):
                 return None
             out.append((m, k.value, v))
@@ -1698,6 +1803,19 @@ class SymExec:
                     fr = Frame(m, m.name + '.<table %s>' % dotted.rsplit('.', 1)[-1], None)
                     c = Closure(v, {}, m, fr.qual + '[%r]' % (key,), self.fresh(), None, fr)
                     return (True, c)
+                def conv_(n):
+                    if isinstance(n, ast.Constant):
+                        return ('const', n.value)
+                    if isinstance(n, ast.Tuple):
+                        xs = [conv_(x) for x in n.elts]
+                        return None if any(x is None for x in xs) else ('tuple',) + tuple(xs)
+                    if isinstance(n, ast.UnaryOp) and isinstance(n.op, ast.USub) and isinstance(n.operand, ast.Constant) \
+                            and isinstance(n.operand.value, (int, float)):
+                        return ('const', -n.operand.value)
+                    return None
+                cv_ = conv_(v)
+                if cv_ is not None:
+                    return (True, cv_)               # a constant / tuple of constants (immutable) stored in the table
                 r = self.facts.resolve_expr(m, v)
                 if r[0] == 'unbound':
                     return None
@@ -1760,6 +1878,18 @@ class SymExec:
         out = []
         for x in elts:
             if isinstance(x, ast.Starred):
+                pg_ = self.package_generator(x.value, fr) if isinstance(x.value, ast.Call) else None
+                if pg_ is not None:
+                    # `*gen(...)` of a package generator consumes it on the spot: the yielded values in order, when every
+                    # loop of the generator ran over a known spine
+                    got_ = []
+                    n0_ = len(self.events)
+                    if self.inline_generator(pg_[0], pg_[1], pg_[2], x.value, fr, got_.append):
+                        if any(ev_.kind in ('loop_skip', 'loop_test') for ev_ in self.events[n0_:]):
+                            out.append(('star', ('unknown', 'generator with a loop over an unknown iterable')))
+                        else:
+                            out.extend(got_)
+                        continue
                 # `*(f(x) for x in xs)` consumes the generator on the spot: same as the list comprehension
                 v = self._comp(x.value, fr, 'list') if isinstance(x.value, ast.GeneratorExp) else self.ev(x.value, fr)
                 if isinstance(v, ListVal):
@@ -2568,6 +2698,13 @@ class SymExec:
                 self.emit('call', node, func=ff, args=fargs, kwargs=fkw, resolved=None, result=None,
                           handlers=self._handlers())
                 return ListVal(args[0].elts, self.fresh())
+            if name == 'frozenset' and len(args) == 1 and not kwargs and spine(args[0]) is not None \
+                    and all(is_const(freeze(x)) for x in spine(args[0])):
+                seen_ = []
+                for x in spine(args[0]):
+                    if freeze(x) not in seen_:
+                        seen_.append(freeze(x))
+                return ('set',) + tuple(seen_)          # frozenset of known constants
             if name == 'list' and not args:
                 return ListVal([], self.fresh())
             if name == 'dict' and not args and not kwargs:
@@ -2841,6 +2978,8 @@ class SymExec:
                 return [(ct[1], ct[2])]
             return [None]
         cs = names(cls_term)
+        if ('builtin', 'object') in cs:
+            return True                      # everything is an object
         if None in cs:
             return None
         fv = freeze(v)
@@ -2932,6 +3071,10 @@ class SymExec:
                         fields_[ev_.attr] = keep(ev_.value)      # closures / spines stored on the object stay callable / iterable
                         ev_.d['init_field'] = True
                 return ('new', qual, tuple(fields_.items()), eid)
+        if not init and not args and not kwargs and any(
+                b in ('dict', 'collections.OrderedDict', 'collections.UserDict') or b.split('[')[0] in ('typing.Dict', 'Dict', 'typing.MutableMapping')
+                for b in self.facts.ext_bases(qual)) and not any(self.facts.find_method(qual, m_) for m_ in ('__setitem__', '__getitem__', '__new__')):
+            return DictVal([], self.fresh(), cls=qual)       # an (empty) instance of a dict subclass: a dict with extra methods
         nt_ = self._namedtuple_fields(qual) if not init else None
         if nt_ is not None and not any(isinstance(a, tuple) and a[:1] == ('star',) for a in args) and len(args) <= len(nt_) \
                 and all(isinstance(k, str) and k in dict(nt_) for k, _ in kwargs):
@@ -2989,6 +3132,12 @@ class SymExec:
             return True
         if meth == 'extend' and len(args) == 1 and isinstance(args[0], ListVal):
             recv.elts.extend(args[0].elts)
+            return True
+        if meth == 'extend' and len(args) == 1 and isinstance(args[0], tuple) and args[0][:1] == ('tuple',):
+            recv.elts.extend(args[0][1:])
+            return True
+        if meth == 'extend' and len(args) == 1 and isinstance(args[0], tuple) and args[0][:1] == ('symlist',):
+            recv.elts.append(('star', freeze(args[0])))        # xs.extend(<list-valued grammar symbol>) == [*xs, *$k]
             return True
         if meth == 'insert' and len(args) == 2 and is_const(args[0]) and isinstance(args[0][1], int) and recv.concrete():
             recv.elts.insert(args[0][1], args[1])
@@ -3049,6 +3198,15 @@ def _ex_Call(self: SymExec, e, fr):
         recv = self.ev(e.func.value, fr)
         func = self.attr(recv, 'join', e.func, fr)
         return self.call(func, [self._comp(e.args[0], fr, 'list')], [], e, fr)
+    if isinstance(e.func, ast.Attribute) and isinstance(e.func.value, ast.Name):
+        recv0 = self.load_name(e.func.value.id, fr, e.func.value) if (e.func.value.id in fr.env or any(
+            e.func.value.id in (self.module_env.get(fr.module.name) or {}) for _ in (0,))) else None
+        if isinstance(recv0, DictVal) and recv0.cls:
+            mq_ = self.facts.find_method(recv0.cls, e.func.attr)
+            if mq_ and mq_ in self.facts.functions and mq_ not in self.stack and len(self.stack) < MAX_INLINE:
+                args_ = self._elts(e.args, fr)
+                kw_ = [(kw.arg, self.ev(kw.value, fr)) for kw in e.keywords]
+                return self._inline_call(mq_, [recv0] + args_, kw_, e, ('attr', freeze(recv0), e.func.attr))
     if isinstance(e.func, ast.Attribute) and e.func.attr in ('items', 'keys', 'values') and not e.args and not e.keywords:
         recv = self.ev(e.func.value, fr)
         if isinstance(recv, DictVal) and all(it[0] != 'dstar' for it in recv.items):
